@@ -5,6 +5,7 @@ import (
 	"strings"
 
 	pb "go.etcd.io/raft/v3/raftpb"
+	"verif/nodexspec"
 )
 
 // ---------------------------------------------------------------- scenario DSL
@@ -894,6 +895,12 @@ func Jobs(prop, tier string) []*Job {
 			jobs = append(jobs, job(prop, tier, "ddfs", sc, 1, mons...))
 		}
 	}
+	// the channel front end (node.go): conformance of raft.Node with RawNode
+	addNode := func() {
+		for _, sp := range nodexspec.Specs(tier) {
+			jobs = append(jobs, &Job{Prop: prop, Tier: tier, Name: sp.Name, Strategy: "nodex", Node: sp, Weight: 1, MinSeconds: 12})
+		}
+	}
 	switch prop {
 	case "ALL":
 		add(poolAll(tier), allMonitors...)
@@ -930,6 +937,7 @@ func Jobs(prop, tier string) []*Job {
 		add(crashOnly(poolSafety(tier)), ms...)
 		add(crashOnly(poolElection(tier)), ms...)
 		add(crashOnly(poolSnapshot(tier)), ms...)
+		addNode()
 	case "C06":
 		add(poolSafety(tier), prop)
 		add(poolConf(tier), prop)
@@ -946,6 +954,7 @@ func Jobs(prop, tier string) []*Job {
 		add(poolSnapshot(tier), prop)
 	case "C10":
 		add(poolConf(tier), prop)
+		addNode()
 	case "C11":
 		add(poolRead(tier), prop)
 	case "C14":
@@ -1023,6 +1032,7 @@ func Jobs(prop, tier string) []*Job {
 		add(poolSafety(tier), prop)
 		add(poolFlow(tier), prop)
 		add(pool{dd: poolConf(tier).dd}, prop)
+		addNode()
 	}
 	for i, j := range jobs {
 		j.Index = i
